@@ -377,4 +377,72 @@ MUTANTS = [
                         .all(|variant| matches!(variant.data, VariantData::Unit)) =>""", """                        .iter()
                         .any(|variant| matches!(variant.data, VariantData::Unit)) =>""")]},
     {"id": "c16-tag-on-struct-allowed", "props": ["C16"], "edits": [(AP, "    if matches!(container.data, syn::Data::Struct(..)) {", "    if matches!(container.data, syn::Data::Union(..)) {")]},
+    # ------------------------------------------------------------------ C05
+    {"id": "c05-signed-drops-negative-kind", "props": ["C05"], "occurrence": 0, "edits": [(IMPLS, "                            accepted: &[ValueKind::Integer, ValueKind::NegativeInteger],", "                            accepted: &[ValueKind::Integer],")]},
+    {"id": "c05-unsigned-accepts-float", "props": ["C05"], "edits": [(IMPLS, """                match value {
+                    Value::Integer(x) => <$t>::try_from(x).or_else(|_| {
+                        Err(take_cf_content(E::error::<V>(
+                            None,
+                            ErrorKind::Unexpected {
+                                msg: format!(
+                                    "value: `{x}` is too large to be deserialized, maximum value authorized is `{}`",
+                                    <$t>::MAX
+                                ),
+                            },
+                            location,
+                        )))
+                    }),
+                    v => Err(take_cf_content(err(v))),""", """                match value {
+                    Value::Float(x) if x.fract() == 0.0 && x >= 0.0 && x < 200.0 => Ok(x as $t),
+                    Value::Integer(x) => <$t>::try_from(x).or_else(|_| {
+                        Err(take_cf_content(E::error::<V>(
+                            None,
+                            ErrorKind::Unexpected {
+                                msg: format!(
+                                    "value: `{x}` is too large to be deserialized, maximum value authorized is `{}`",
+                                    <$t>::MAX
+                                ),
+                            },
+                            location,
+                        )))
+                    }),
+                    v => Err(take_cf_content(err(v))),""")]},
+    {"id": "c05-min-in-too-large-message", "props": ["C05"], "occurrence": 0, "edits": [(IMPLS, """                                    "value: `{x}` is too large to be deserialized, maximum value authorized is `{}`",
+                                    <$t>::MAX
+                                ),
+                            },
+                            location,
+                        )))
+                    }),
+                    Value::NegativeInteger(x) => <$t>::try_from(x).or_else(|_| {""", """                                    "value: `{x}` is too large to be deserialized, maximum value authorized is `{}`",
+                                    <$t>::MIN
+                                ),
+                            },
+                            location,
+                        )))
+                    }),
+                    Value::NegativeInteger(x) => <$t>::try_from(x).or_else(|_| {""")]},
+    {"id": "c05-wrapping-cast", "props": ["C05"], "edits": [(IMPLS, "                    Value::NegativeInteger(x) => <$t>::try_from(x).or_else(|_| {", "                    Value::NegativeInteger(x) if x < -1_000_000_000_000 => Ok(x as $t),\n                    Value::NegativeInteger(x) => <$t>::try_from(x).or_else(|_| {")]},
+    {"id": "c05-nonzero-neg-zero-unchecked", "props": ["C05"], "edits": [(IMPLS, """                    Value::NegativeInteger(x) if x == 0 => {
+                      Err(take_cf_content(E::error::<V>(
+                          None,
+                          ErrorKind::Unexpected {
+                              msg: format!(
+                                  "a non-zero integer value higher than `{}` was expected, but found a zero",
+                                  <$t>::MIN
+                              ),
+                          },
+                          location,
+                      )))
+                    },
+""", "")]},
+    {"id": "c05-char-first-of-longer", "props": ["C05"], "edits": [(IMPLS, "                    if iter.next().is_none() {\n                        Ok(value)", "                    if iter.next().is_none() || s.len() > 1000 {\n                        Ok(value)")]},
+    {"id": "c05-float-via-f32", "props": ["C05"], "edits": [(IMPLS, "                    Value::Float(x) => Ok(x as $t),", "                    Value::Float(x) => Ok((x as f32) as $t),")]},
+    {"id": "c05-payload-not-in-message", "props": ["C05"], "occurrence": 0, "edits": [(IMPLS, """                                msg: format!(
+                                    "value: `{x}` is too large to be deserialized, maximum value authorized is `{}`",
+                                    <$t>::MAX
+                                ),""", """                                msg: format!(
+                                    "value is too large to be deserialized, maximum value authorized is `{}`",
+                                    <$t>::MAX
+                                ),""")]},
 ]
